@@ -8,7 +8,11 @@ package main
 import (
 	"fmt"
 	"sort"
+	"strings"
 )
+
+const privMem = "P|priv"
+const privSort = "(Array Int Bool)"
 
 type heapKind int
 
@@ -113,7 +117,8 @@ func (c *Ctx) heapGet(h *Heap, name, sort_ string) string {
 			cur = cur.parent
 			continue
 		}
-		if cur.kind == hHavoc && cur.keep != nil && cur.keep(name) {
+		if cur.kind == hHavoc && (strings.HasPrefix(name, "P|") || (cur.keep != nil && cur.keep(name))) {
+			// P| arrays are bookkeeping of the verifier (privacy of local objects): never havocked
 			chain = append(chain, cur)
 			cur = cur.parent
 			continue
@@ -123,7 +128,11 @@ func (c *Ctx) heapGet(h *Heap, name, sort_ string) string {
 	var t string
 	switch cur.kind {
 	case hEntry:
-		t = c.declare(fmt.Sprintf("%s@0", name), sort_)
+		if name == privMem {
+			t = "((as const (Array Int Bool)) false)"
+		} else {
+			t = c.declare(fmt.Sprintf("%s@0", name), sort_)
+		}
 	case hHavoc:
 		t = c.declare(fmt.Sprintf("%s@%s%d", name, cur.tag, cur.id), sort_)
 	case hMerge:
